@@ -171,5 +171,6 @@ func verifSpecCL(lowered string) primitive.ConsistencyLevel {
 //@   modifies nothing
 
 //@ func proxy.Run [C20]
+//@   replay verifReplayRunRefusesBadConfig()
 //@   requires !$configError
 //@   ensures refused: $configError ==> result != 0
